@@ -1,7 +1,258 @@
-//! C14 operations (op names start with `c14.`)
-#[allow(unused_imports)]
+//! C14 — every signed division flavour of `Int<LIMBS>` (src/int/div.rs, src/int/div_uint.rs).
+//! Each op prints the `(quotient, remainder)` of the `*_div_rem*` method and compares all thin
+//! forwarding forms (single-result methods, `CheckedDiv`, `DivVartime`, `/ % /= %=` on `Int` and on
+//! `Wrapping<Int>`, `Checked<Int> /`) inside the harness: a form that disagrees prints
+//! `forms-differ:<name>`.
+#![allow(clippy::all)]
 use crate::util::*;
+use crypto_bigint::{Checked, CheckedDiv, ConstCtOption, DivVartime, Int, NonZero, Uint, Wrapping};
+use std::panic::{AssertUnwindSafe, catch_unwind};
+use subtle::CtOption;
 
-pub fn dispatch(_op: &str, _a: &[&str]) -> Option<String> {
-    None
+fn oi<const N: usize>(v: Option<Int<N>>) -> String {
+    v.map(|x| ihex(&x)).unwrap_or("none".into())
+}
+fn cc<const N: usize>(v: ConstCtOption<Int<N>>) -> Option<Int<N>> {
+    v.into()
+}
+fn ct<const N: usize>(v: CtOption<Int<N>>) -> Option<Int<N>> {
+    v.into()
+}
+fn caught<T>(f: impl FnOnce() -> T) -> Option<T> {
+    catch_unwind(AssertUnwindSafe(f)).ok()
+}
+
+struct Forms(Option<String>);
+impl Forms {
+    fn new() -> Self {
+        Forms(None)
+    }
+    fn same<T: PartialEq>(&mut self, name: &str, got: T, want: &T) {
+        if self.0.is_none() && got != *want {
+            self.0 = Some(format!("forms-differ:{name}"));
+        }
+    }
+    fn done(self, s: String) -> String {
+        self.0.unwrap_or(s)
+    }
+}
+
+/// `Int / Int`, constant time, equal widths
+fn div_rem<const N: usize>(a: &[&str]) -> Option<String> {
+    let (x, y) = (arg!(int::<N>(a[0])), arg!(int::<N>(a[1])));
+    let mut f = Forms::new();
+    let nz: Option<NonZero<Int<N>>> = y.to_nz().into();
+    let Some(d) = nz else {
+        // no NonZero exists: only the forms taking a plain divisor can be called
+        let c = ct(x.checked_div(&y));
+        f.same("CheckedDiv", ct(CheckedDiv::checked_div(&x, &y)), &c);
+        f.same("checked_div_floor", ct(x.checked_div_floor(&y)), &c);
+        f.same("Checked/", Option::from((Checked::new(x) / Checked::new(y)).0), &c);
+        f.same("NonZero::new", Option::<NonZero<Int<N>>>::from(NonZero::new(y)).is_none(), &true);
+        return Some(f.done(format!("zero-divisor {}", oi(c))));
+    };
+    let (q, r) = x.checked_div_rem(&d);
+    let q = cc(q);
+    f.same("checked_div", ct(x.checked_div(&y)), &q);
+    f.same("CheckedDiv", ct(CheckedDiv::checked_div(&x, &y)), &q);
+    f.same("rem", x.rem(&d), &r);
+    f.same("/", ct(x / d), &q);
+    f.same("/&", ct(x / &d), &q);
+    f.same("&/", ct(&x / d), &q);
+    f.same("&/&", ct(&x / &d), &q);
+    f.same("/=", caught(|| { let mut t = x; t /= d; t }), &q);
+    f.same("/=&", caught(|| { let mut t = x; t /= &d; t }), &q);
+    f.same("%", x % d, &r);
+    f.same("%&", x % &d, &r);
+    f.same("&%", &x % d, &r);
+    f.same("&%&", &x % &d, &r);
+    f.same("%=", { let mut t = x; t %= d; t }, &r);
+    f.same("%=&", { let mut t = x; t %= &d; t }, &r);
+    let w = Wrapping(x);
+    f.same("Wrapping/", caught(|| (w / d).0), &q);
+    f.same("Wrapping/&", caught(|| (w / &d).0), &q);
+    f.same("&Wrapping/", caught(|| (&w / d).0), &q);
+    f.same("&Wrapping/&", caught(|| (&w / &d).0), &q);
+    f.same("Wrapping/=", caught(|| { let mut t = w; t /= d; t.0 }), &q);
+    f.same("Wrapping/=&", caught(|| { let mut t = w; t /= &d; t.0 }), &q);
+    f.same("Wrapping%", (w % d).0, &r);
+    f.same("Wrapping%&", (w % &d).0, &r);
+    f.same("&Wrapping%", (&w % d).0, &r);
+    f.same("&Wrapping%&", (&w % &d).0, &r);
+    f.same("Wrapping%=", { let mut t = w; t %= d; t.0 }, &r);
+    f.same("Wrapping%=&", { let mut t = w; t %= &d; t.0 }, &r);
+    let (cx, cy) = (Checked::new(x), Checked::new(y));
+    f.same("Checked/", Option::from((cx / cy).0), &q);
+    f.same("Checked/&", Option::from((cx / &cy).0), &q);
+    f.same("&Checked/", Option::from((&cx / cy).0), &q);
+    f.same("&Checked/&", Option::from((&cx / &cy).0), &q);
+    f.same("DivVartime", caught(|| DivVartime::div_vartime(&x, &d)), &q);
+    Some(f.done(format!("{} {}", oi(q), ihex(&r))))
+}
+
+/// flooring `Int / Int`, constant time
+fn div_rem_floor<const N: usize>(a: &[&str]) -> Option<String> {
+    let (x, y) = (arg!(int::<N>(a[0])), arg!(int::<N>(a[1])));
+    let mut f = Forms::new();
+    let nz: Option<NonZero<Int<N>>> = y.to_nz().into();
+    let Some(d) = nz else {
+        return Some(format!("zero-divisor {}", oi(ct(x.checked_div_floor(&y)))));
+    };
+    let (q, r) = x.checked_div_rem_floor(&d);
+    let q = cc(q);
+    f.same("checked_div_floor", ct(x.checked_div_floor(&y)), &q);
+    Some(f.done(format!("{} {}", oi(q), ihex(&r))))
+}
+
+/// `Int / Uint`, constant time
+fn div_rem_uint<const N: usize>(a: &[&str]) -> Option<String> {
+    let (x, y) = (arg!(int::<N>(a[0])), arg!(uint::<N>(a[1])));
+    let nz: Option<NonZero<Uint<N>>> = y.to_nz().into();
+    let Some(d) = nz else { return Some("zero-divisor".into()) };
+    let mut f = Forms::new();
+    let (q, r) = x.div_rem_uint(&d);
+    f.same("div_uint", x.div_uint(&d), &q);
+    f.same("rem_uint", x.rem_uint(&d), &r);
+    f.same("/", x / d, &q);
+    f.same("/&", x / &d, &q);
+    f.same("&/", &x / d, &q);
+    f.same("&/&", &x / &d, &q);
+    f.same("/=", { let mut t = x; t /= d; t }, &q);
+    f.same("/=&", { let mut t = x; t /= &d; t }, &q);
+    f.same("%", x % d, &r);
+    f.same("%&", x % &d, &r);
+    f.same("&%", &x % d, &r);
+    f.same("&%&", &x % &d, &r);
+    f.same("%=", { let mut t = x; t %= d; t }, &r);
+    f.same("%=&", { let mut t = x; t %= &d; t }, &r);
+    let w = Wrapping(x);
+    f.same("Wrapping/", (w / d).0, &q);
+    f.same("Wrapping/&", (w / &d).0, &q);
+    f.same("&Wrapping/", (&w / d).0, &q);
+    f.same("&Wrapping/&", (&w / &d).0, &q);
+    f.same("Wrapping/=", { let mut t = w; t /= d; t.0 }, &q);
+    f.same("Wrapping/=&", { let mut t = w; t /= &d; t.0 }, &q);
+    f.same("Wrapping%", (w % d).0, &r);
+    f.same("Wrapping%&", (w % &d).0, &r);
+    f.same("&Wrapping%", (&w % d).0, &r);
+    f.same("&Wrapping%&", (&w % &d).0, &r);
+    f.same("Wrapping%=", { let mut t = w; t %= d; t.0 }, &r);
+    f.same("Wrapping%=&", { let mut t = w; t %= &d; t.0 }, &r);
+    Some(f.done(format!("{} {}", ihex(&q), ihex(&r))))
+}
+
+/// flooring `Int / Uint`, constant time
+fn div_rem_floor_uint<const N: usize>(a: &[&str]) -> Option<String> {
+    let (x, y) = (arg!(int::<N>(a[0])), arg!(uint::<N>(a[1])));
+    let nz: Option<NonZero<Uint<N>>> = y.to_nz().into();
+    let Some(d) = nz else { return Some("zero-divisor".into()) };
+    let mut f = Forms::new();
+    let (q, r) = x.div_rem_floor_uint(&d);
+    f.same("div_floor_uint", x.div_floor_uint(&d), &q);
+    f.same("normalized_rem", x.normalized_rem(&d), &r);
+    Some(f.done(format!("{} {}", ihex(&q), uhex(&r))))
+}
+
+// ---- vartime, two widths
+
+fn div_rem_vartime<const N: usize, const M: usize>(a: &[&str]) -> Option<String> {
+    let (x, y) = (arg!(int::<N>(a[0])), arg!(int::<M>(a[1])));
+    let nz: Option<NonZero<Int<M>>> = y.to_nz().into();
+    let Some(d) = nz else {
+        return Some(format!("zero-divisor {}", oi(ct(x.checked_div_vartime(&y)))));
+    };
+    let mut f = Forms::new();
+    let (q, r) = x.checked_div_rem_vartime(&d);
+    let q = cc(q);
+    f.same("checked_div_vartime", ct(x.checked_div_vartime(&y)), &q);
+    f.same("rem_vartime", x.rem_vartime(&d), &r);
+    Some(f.done(format!("{} {}", oi(q), ihex(&r))))
+}
+
+fn div_rem_floor_vartime<const N: usize, const M: usize>(a: &[&str]) -> Option<String> {
+    let (x, y) = (arg!(int::<N>(a[0])), arg!(int::<M>(a[1])));
+    let nz: Option<NonZero<Int<M>>> = y.to_nz().into();
+    let Some(d) = nz else {
+        return Some(format!("zero-divisor {}", oi(ct(x.checked_div_floor_vartime(&y)))));
+    };
+    let mut f = Forms::new();
+    let (q, r) = x.checked_div_rem_floor_vartime(&d);
+    let q = cc(q);
+    f.same("checked_div_floor_vartime", ct(x.checked_div_floor_vartime(&y)), &q);
+    Some(f.done(format!("{} {}", oi(q), ihex(&r))))
+}
+
+fn div_rem_uint_vartime<const N: usize, const M: usize>(a: &[&str]) -> Option<String> {
+    let (x, y) = (arg!(int::<N>(a[0])), arg!(uint::<M>(a[1])));
+    let nz: Option<NonZero<Uint<M>>> = y.to_nz().into();
+    let Some(d) = nz else { return Some("zero-divisor".into()) };
+    let mut f = Forms::new();
+    let (q, r) = x.div_rem_uint_vartime(&d);
+    f.same("div_uint_vartime", x.div_uint_vartime(&d), &q);
+    f.same("rem_uint_vartime", x.rem_uint_vartime(&d), &r);
+    Some(f.done(format!("{} {}", ihex(&q), ihex(&r))))
+}
+
+fn div_rem_floor_uint_vartime<const N: usize, const M: usize>(a: &[&str]) -> Option<String> {
+    let (x, y) = (arg!(int::<N>(a[0])), arg!(uint::<M>(a[1])));
+    let nz: Option<NonZero<Uint<M>>> = y.to_nz().into();
+    let Some(d) = nz else { return Some("zero-divisor".into()) };
+    let mut f = Forms::new();
+    let (q, r) = x.div_rem_floor_uint_vartime(&d);
+    f.same("div_floor_uint_vartime", x.div_floor_uint_vartime(&d), &q);
+    f.same("normalized_rem_vartime", x.normalized_rem_vartime(&d), &r);
+    Some(f.done(format!("{} {}", ihex(&q), uhex(&r))))
+}
+
+macro_rules! with_pair {
+    ($n:expr, $m:expr, $f:ident, $($args:expr),*) => {
+        match ($n, $m) {
+            (1, 1) => $f::<1, 1>($($args),*), (2, 2) => $f::<2, 2>($($args),*),
+            (3, 3) => $f::<3, 3>($($args),*), (4, 4) => $f::<4, 4>($($args),*),
+            (8, 8) => $f::<8, 8>($($args),*), (16, 16) => $f::<16, 16>($($args),*),
+            (1, 2) => $f::<1, 2>($($args),*), (2, 1) => $f::<2, 1>($($args),*),
+            (1, 3) => $f::<1, 3>($($args),*), (3, 1) => $f::<3, 1>($($args),*),
+            (2, 4) => $f::<2, 4>($($args),*), (4, 2) => $f::<4, 2>($($args),*),
+            (3, 4) => $f::<3, 4>($($args),*), (4, 3) => $f::<4, 3>($($args),*),
+            (4, 8) => $f::<4, 8>($($args),*), (8, 4) => $f::<8, 4>($($args),*),
+            (1, 8) => $f::<1, 8>($($args),*), (8, 1) => $f::<8, 1>($($args),*),
+            (8, 16) => $f::<8, 16>($($args),*), (16, 8) => $f::<16, 8>($($args),*),
+            _ => Some("unsupported-width".to_string()),
+        }
+    };
+}
+
+macro_rules! with_w6 {
+    ($n:expr, $f:ident, $($args:expr),*) => {
+        match $n {
+            1 => $f::<1>($($args),*), 2 => $f::<2>($($args),*), 3 => $f::<3>($($args),*),
+            4 => $f::<4>($($args),*), 8 => $f::<8>($($args),*), 16 => $f::<16>($($args),*),
+            _ => Some("unsupported-width".to_string()),
+        }
+    };
+}
+
+pub fn dispatch(op: &str, a: &[&str]) -> Option<String> {
+    if a.is_empty() {
+        return None;
+    }
+    let n = arg!(dec(a[0]));
+    match (op, a.len()) {
+        ("c14.div_rem", 3) => with_w6!(n, div_rem, &a[1..]),
+        ("c14.div_rem_floor", 3) => with_w6!(n, div_rem_floor, &a[1..]),
+        ("c14.div_rem_uint", 3) => with_w6!(n, div_rem_uint, &a[1..]),
+        ("c14.div_rem_floor_uint", 3) => with_w6!(n, div_rem_floor_uint, &a[1..]),
+        (_, 4) => {
+            let m = arg!(dec(a[2]));
+            let v = [a[1], a[3]];
+            match op {
+                "c14.div_rem_vartime" => with_pair!(n, m, div_rem_vartime, &v),
+                "c14.div_rem_floor_vartime" => with_pair!(n, m, div_rem_floor_vartime, &v),
+                "c14.div_rem_uint_vartime" => with_pair!(n, m, div_rem_uint_vartime, &v),
+                "c14.div_rem_floor_uint_vartime" => with_pair!(n, m, div_rem_floor_uint_vartime, &v),
+                _ => None,
+            }
+        }
+        _ => None,
+    }
 }
